@@ -257,9 +257,26 @@ fn run_child(mode: &str, spec: &Spec) -> Result<ChildOut, String> {
         return Err(format!("TSAN {}", head.join(" | ")));
     }
     if !out.status.success() {
-        return Err(format!("child ended with {:?}: {}", out.status, err.chars().take(400).collect::<String>()));
+        use std::os::unix::process::ExitStatusExt;
+        // A child that dies inside library code (panic under /repo, stack overflow = SIGABRT/SIGSEGV) is a finding; a child that
+        // could not do its job for environmental reasons (killed by the OOM killer, thread spawn refused, a panic in harness code)
+        // says nothing about the property: "ENV " errors are reported as inconclusive (exit 2), never as a violation.
+        let library_panic = err.lines().any(|l| l.contains("panicked at") && l.contains("/repo/"));
+        let killed = out.status.signal() == Some(9);
+        let env = !library_panic && (killed || (out.status.signal().is_none() && (err.contains("failed to spawn thread") || err.contains("Resource temporarily unavailable") || err.contains("Cannot allocate memory") || err.contains("panicked at"))));
+        return Err(format!("{}child ended with {:?}: {}", if env { "ENV " } else { "" }, out.status, err.chars().take(400).collect::<String>()));
     }
     serde_json::from_slice(&out.stdout).map_err(|e| format!("child output: {}", e))
+}
+
+fn child_error(e: String) -> Violation {
+    if e.starts_with("TSAN ") {
+        Violation::new("tsan/data-race", e)
+    } else if e.starts_with("ENV ") {
+        Violation::new("harness-panic@child", e)
+    } else {
+        Violation::new("child-crash", e)
+    }
 }
 
 fn is_subsequence(s: &[u32], of: &[u32]) -> bool {
@@ -287,10 +304,9 @@ enum StreamShape {
     Unknown,
 }
 
-/// reference streams by rank for a workload: a token-passing run with as many threads, the first 8 ranks
-/// drawing `long` priorities and the others `short`
-fn rank_reference(threads: usize, long: u32, short: u32) -> Result<Vec<Vec<u32>>, String> {
-    let spec = Spec { threads: (0..threads).map(|r| (if r < 8 { long } else { short }, 1, 0, 0)).collect(), churn: None };
+/// reference streams by rank: a token-passing run in which the thread of rank r draws `lens[r]` priorities
+fn rank_reference(lens: &[u32]) -> Result<Vec<Vec<u32>>, String> {
+    let spec = Spec { threads: lens.iter().map(|&n| (n.max(1), 1, 0, 0)).collect(), churn: None };
     Ok(run_child("sequential", &spec)?.threads.into_iter().map(|t| t.prios).collect())
 }
 
@@ -322,37 +338,73 @@ fn judge(spec: &Spec, out: &ChildOut, shape_kind: StreamShape, s_proc: &[u32], s
     match shape_kind {
         StreamShape::Unknown => st.label("stream-oracle-skipped"),
         StreamShape::ByRank => {
-            let longest = out.threads.iter().map(|t| t.prios.len()).max().unwrap_or(0) as u32;
-            let shortest_needed = out.threads.iter().map(|t| t.prios.len()).filter(|&l| (l as u32) < longest).max().unwrap_or(0) as u32;
-            let refs = rank_reference(out.threads.len(), longest.max(1), shortest_needed.max(1).min(64)).map_err(|e| Violation::new("child-crash", e))?;
-            let mut by_first: std::collections::HashMap<(u32, u32), usize> = Default::default();
-            for (r, s) in refs.iter().enumerate() {
-                by_first.insert((s[0], *s.get(1).unwrap_or(&0)), r);
+            // Pass 1: a sequential execution with as many threads, 16 draws each, tells which rank's stream every concurrent
+            // thread is on (ranks are handed out in the order of first use, which the scheduler decides).
+            const PROBE: u32 = 16;
+            let nthreads = out.threads.len();
+            let probe = rank_reference(&vec![PROBE; nthreads]).map_err(child_error)?;
+            let mut by_first: std::collections::HashMap<u32, Vec<usize>> = Default::default();
+            for (r, s) in probe.iter().enumerate() {
+                by_first.entry(s[0]).or_default().push(r);
             }
-            let mut used = vec![false; refs.len()];
+            let mut rank_of: Vec<Option<usize>> = vec![None; nthreads];
+            let mut used = vec![false; nthreads];
             for (i, t) in out.threads.iter().enumerate() {
                 if t.prios.is_empty() {
                     continue;
                 }
-                let key = (t.prios[0], *t.prios.get(1).unwrap_or(&refs.iter().find(|s| s[0] == t.prios[0]).and_then(|s| s.get(1)).unwrap_or(&0)));
-                let r = match by_first.get(&key) {
-                    Some(&r) => r,
+                let cands = match by_first.get(&t.prios[0]) {
+                    Some(c) => c,
                     None => {
                         return Err(Violation::new(
                             "stream/no-sequential-execution",
-                            format!("thread {} of {}: its priority stream (starting {:?}) is not the stream of any thread in a sequential execution", i, out.threads.len(), &t.prios[..t.prios.len().min(4)]),
+                            format!("thread {} of {}: its priority stream (starting {:?}) is not the stream of any thread in a sequential execution", i, nthreads, &t.prios[..t.prios.len().min(4)]),
                         ))
                     }
                 };
-                let m = t.prios.len().min(refs[r].len());
-                vensure!(
-                    t.prios[..m] == refs[r][..m],
-                    "stream/per-thread",
-                    "thread {}: its priority stream starts like the stream of the {}-th thread of a sequential execution but departs from it at draw {} (a draw was lost, repeated or taken from another thread's stream)",
-                    i, r, t.prios.iter().zip(refs[r].iter()).position(|(a, b)| a != b).unwrap_or(m)
-                );
+                let agrees = |r: usize| {
+                    let m = t.prios.len().min(probe[r].len());
+                    t.prios[..m] == probe[r][..m]
+                };
+                let r = match cands.iter().copied().find(|&r| agrees(r)) {
+                    Some(r) => r,
+                    None => {
+                        let r = cands[0];
+                        let m = t.prios.len().min(probe[r].len());
+                        return Err(Violation::new(
+                            "stream/per-thread",
+                            format!(
+                                "thread {}: its priority stream starts like the stream of the {}-th thread of a sequential execution but departs from it at draw {} (a draw was lost, repeated or taken from another thread's stream)",
+                                i, r, t.prios.iter().zip(probe[r].iter()).position(|(a, b)| a != b).unwrap_or(m)
+                            ),
+                        ));
+                    }
+                };
                 vensure!(!used[r], "stream/duplicated-stream", "two threads observed the same priority stream (that of the {}-th thread of a sequential execution)", r);
                 used[r] = true;
+                rank_of[i] = Some(r);
+            }
+            // Pass 2: the sequential execution in which the thread of rank r draws exactly as many priorities as the concurrent
+            // thread that was on rank r's stream; every concurrent stream must equal its rank's stream draw for draw.
+            if out.threads.iter().any(|t| t.prios.len() > PROBE as usize) {
+                let mut lens = vec![1u32; nthreads];
+                for (i, t) in out.threads.iter().enumerate() {
+                    if let Some(r) = rank_of[i] {
+                        lens[r] = t.prios.len() as u32;
+                    }
+                }
+                let full = rank_reference(&lens).map_err(child_error)?;
+                for (i, t) in out.threads.iter().enumerate() {
+                    if let Some(r) = rank_of[i] {
+                        let m = t.prios.len().min(full[r].len());
+                        vensure!(
+                            t.prios[..m] == full[r][..m],
+                            "stream/per-thread",
+                            "thread {}: its priority stream starts like the stream of the {}-th thread of a sequential execution but departs from it at draw {} (a draw was lost, repeated or taken from another thread's stream)",
+                            i, r, t.prios.iter().zip(full[r].iter()).position(|(a, b)| a != b).unwrap_or(m)
+                        );
+                    }
+                }
             }
             st.label("stream-by-rank");
         }
@@ -483,7 +535,7 @@ fn main() {
     let sp = s_proc.clone();
     let stt = s_thr.clone();
     let runner = move |spec: &Spec| -> CaseResult {
-        let out = run_child(if spec.churn.is_some() { "churn" } else { "concurrent" }, spec).map_err(|e| if e.starts_with("TSAN ") { Violation::new("tsan/data-race", e) } else { Violation::new("child-crash", e) })?;
+        let out = run_child(if spec.churn.is_some() { "churn" } else { "concurrent" }, spec).map_err(child_error)?;
         judge(spec, &out, shape_kind, &sp, &stt)
     };
     {
